@@ -169,6 +169,8 @@ pub struct Registration<T = &'static dyn Callsite> {
 
 pub(crate) use self::inner::register_dispatch;
 pub use self::inner::{rebuild_interest_cache, register};
+#[cfg(all(tracing_verif, feature = "std"))]
+pub(crate) use self::inner::{verif_for_each, verif_rebuild_callsite_interest, verif_rebuild_interest};
 
 #[cfg(feature = "std")]
 mod inner {
@@ -289,6 +291,24 @@ mod inner {
         callsites.for_each(|reg| rebuild_callsite_interest(dispatchers, reg.callsite));
 
         LevelFilter::set_max(max_level);
+    }
+
+    #[cfg(tracing_verif)]
+    pub(crate) fn verif_rebuild_callsite_interest(
+        dispatchers: &[dispatch::Registrar],
+        callsite: &'static dyn Callsite,
+    ) {
+        rebuild_callsite_interest(dispatchers, callsite)
+    }
+
+    #[cfg(tracing_verif)]
+    pub(crate) fn verif_rebuild_interest(dispatchers: &mut Vec<dispatch::Registrar>) {
+        rebuild_interest(&REGISTRY.callsites, dispatchers)
+    }
+
+    #[cfg(tracing_verif)]
+    pub(crate) fn verif_for_each(mut f: impl FnMut(&'static dyn Callsite)) {
+        REGISTRY.callsites.for_each(|reg| f(reg.callsite))
     }
 }
 
